@@ -208,6 +208,8 @@ def make_probe(seed, slot, status, loc, office="G", district=None, threshold=100
         u.update(r_dem=r[0], r_gop=r[1], r_turnout=r[2])
     elif status == "missing":
         u["in_feed"] = False
+    elif status == "nan_result":
+        u["r_nan"] = True  # the feed has a row for the unit, but without results yet
     else:
         raise ValueError(status)
     return u
@@ -265,19 +267,19 @@ def raw_config(cfg):
         types = ["precinct-district", "county-district"]
     else:
         types = ["precinct", "county"]
-    return {
-        ELECTION_ID: [
-            {
-                "office": office,
-                "states": list(cfg["states"]),
-                "geographic_unit_types": types,
-                "historical_election": [],
-                "features": [FEATURE],
-                "aggregates": aggs,
-                "fixed_effect": fes,
-            }
-        ]
+    sub = {
+        "office": office,
+        "states": list(cfg["states"]),
+        "geographic_unit_types": types,
+        "historical_election": [],
+        "features": [FEATURE],
+        "aggregates": aggs,
+        "fixed_effect": fes,
     }
+    if cfg.get("baseline_pointer"):
+        # e.g. {"dem": "dem_pres", "gop": "gop", "turnout": "turnout"}: the baseline of an estimand lives in another column
+        sub["baseline_pointer"] = dict(cfg["baseline_pointer"])
+    return {ELECTION_ID: [sub]}
 
 
 def frames(units, cfg):
@@ -301,6 +303,8 @@ def frames(units, cfg):
             }
             if district:
                 row["district"] = u["district"]
+            for k, v in u.get("extra_baseline", {}).items():
+                row[k] = v
             brow.append(row)
         if u["in_feed"]:
             nan = u.get("r_nan", False)  # the feed has a row for the unit but no results yet
@@ -325,6 +329,7 @@ def frames(units, cfg):
         "baseline_gop",
         FEATURE,
     ] + (["district"] if district else [])
+    bcols += sorted({k for u in units for k in u.get("extra_baseline", {})})
     fcols = ["postal_code", "geographic_unit_fips", "results_turnout", "results_dem", "results_gop", "percent_expected_vote"]
     baseline = pd.DataFrame(brow, columns=bcols)
     feed = pd.DataFrame(frow, columns=fcols)
@@ -384,11 +389,12 @@ def table_to_obj(df):
     return {"columns": cols, "rows": rows}
 
 
-def run_estimates(units, cfg, client=None, keep_client=False):
-    """One real ModelClient.get_estimates.  Returns {'ok': tables} or {'error': (type, msg)}."""
+def run_estimates(units, cfg, client=None, keep_client=False, frames_override=None):
+    """One real ModelClient.get_estimates.  Returns {'ok': tables} or {'error': (type, msg)}.
+    frames_override=(baseline, feed) hands over caller-owned DataFrame objects instead of freshly built ones."""
     from elexmodel.client import ModelClient
 
-    baseline, feed = frames(units, cfg)
+    baseline, feed = frames_override if frames_override is not None else frames(units, cfg)
     mp, kwargs = call_kwargs(units, cfg)
     client = client or ModelClient()
     try:
